@@ -666,7 +666,7 @@ mod if_alloc {
     // Safety: Futures can be sent between threads as long as the underlying
     // semaphore is thread-safe (Sync), which allows to poll/register/unregister from
     // a different thread.
-    unsafe impl<MutexType: RawMutex + Sync> Send
+    unsafe impl<MutexType: RawMutex + Send + Sync> Send
         for GenericSharedSemaphoreAcquireFuture<MutexType>
     {
     }
@@ -774,7 +774,7 @@ mod if_alloc {
     {
     }
     // The Semaphore is thread-safe as long as the utilized Mutex is thread-safe
-    unsafe impl<MutexType: RawMutex + Sync> Sync
+    unsafe impl<MutexType: RawMutex + Send + Sync> Sync
         for GenericSharedSemaphore<MutexType>
     {
     }
